@@ -364,6 +364,25 @@ fn p_ext_two_borrowed_children() {
     kani::cover!(order, "left first");
     kani::cover!(!order, "right first");
 }
+#[kani::proof]
+#[kani::unwind(9)]
+fn p_ext_user_trait_named_like_builtin() {
+    // `trait_obj!(v as units::Display)`: the user's own trait (path given), not the builtin one
+    let (s0, id, a): (State, u64, u64) = kani::any();
+    let mutating: bool = kani::any();
+    let mut sd = s0;
+    let mut d = Imp { st: &mut sd, id };
+    let r1 = if mutating { units::Display::show_mut(&mut d, a) } else { units::Display::show(&d, a) };
+    let id1 = d.id;
+    core::mem::forget(d);
+    let mut st = s0;
+    let mut imp = Imp { st: &mut st, id };
+    let r2 = { use units::Display as _; let mut o = trait_obj!(&mut imp as units::Display); if mutating { o.show_mut(a) } else { o.show(a) } };
+    assert!(r1 == r2 && imp.id == id1, "C01 same result and instance as the direct call (user trait named like a builtin one, given by path)");
+    core::mem::forget(imp);
+    assert!(st == sd, "C01 same instance state as after the direct call (user trait named like a builtin one)");
+    kani::cover!(mutating, "mutating");
+}
 //@ prefix=p_grp kind=property clause=group object and successful casts of it (cast!, as_ref!, as_mut!, into!): mandatory and optional trait methods satisfy the same contract, on the same instance
 #[kani::proof]
 #[kani::unwind(9)]
